@@ -46,8 +46,13 @@ pub enum Kind {
     /// reference: it names no stored reference version, so it may remove nothing unless its author holds the
     /// all-rows right
     EdgeTombstoneForeignOtherCdate,
+    /// two deletion records in one batch, both for rows of somebody else (every record of a batch needs the right)
+    TombstoneForeignPair,
+    /// deletion record for somebody else's row whose own date is a valid one whatever the date of the deletion: the
+    /// right is needed at the date of the DELETION
+    TombstoneForeignRowDatedValid,
 }
-const KINDS: [Kind; 13] = [
+const KINDS: [Kind; 15] = [
     Kind::NewP,
     Kind::NewQ,
     Kind::NewerOwnVersion,
@@ -61,6 +66,8 @@ const KINDS: [Kind; 13] = [
     Kind::EdgeTombstoneOwn,
     Kind::EdgeTombstoneForeign,
     Kind::EdgeTombstoneForeignOtherCdate,
+    Kind::TombstoneForeignPair,
+    Kind::TombstoneForeignRowDatedValid,
 ];
 
 #[derive(Clone, Copy, Debug, PartialEq, Eq, Hash)]
@@ -405,6 +412,8 @@ pub async fn run_case(w: &World, c: &Case, out: &mut Outcome, verbose: bool) -> 
         EdgeGone(Uid, String, Uid, i64),
         /// the stored reference itself has disappeared (whatever the deletion log says)
         EdgeRemoved(Uid, String, Uid),
+        /// one of several rows has disappeared or has a deletion record
+        AnyNodeGone(Vec<Uid>, i64),
     }
     let probe: Probe;
     let mut pulled = room;
@@ -458,6 +467,29 @@ pub async fn run_case(w: &World, c: &Case, out: &mut Outcome, verbose: bool) -> 
             sender_ntomb.push((room, old.clone(), d, author));
             victim_nodes.push(old);
             right_needed = vec![(false, "ns.P", if c.kind == Kind::TombstoneOwn { Right::Own } else { Right::All })];
+        }
+        Kind::TombstoneForeignPair => {
+            let mut ids = vec![];
+            for name in ["victim-row-1", "victim-row-2"] {
+                let old = signed_node(&u.p_short, room, other, d - 2000, d - 1000, pj(name), None);
+                ids.push(old.id);
+                mark.push((u.p_short.clone(), old.mdate));
+                sender_ntomb.push((room, old.clone(), d, author));
+                victim_nodes.push(old);
+            }
+            mark.push((u.p_short.clone(), d));
+            probe = Probe::AnyNodeGone(ids, d);
+            right_needed = vec![(false, "ns.P", Right::All)];
+        }
+        Kind::TombstoneForeignRowDatedValid => {
+            let rd = date_of(DateK::Valid);
+            let old = signed_node(&u.p_short, room, other, rd - 2000, rd - 1000, pj("victim-row"), None);
+            probe = Probe::NodeGone(old.id, d);
+            mark.push((u.p_short.clone(), d));
+            mark.push((u.p_short.clone(), old.mdate));
+            sender_ntomb.push((room, old.clone(), d, author));
+            victim_nodes.push(old);
+            right_needed = vec![(false, "ns.P", Right::All)];
         }
         Kind::NewPWithEdge | Kind::EdgeByOtherAuthor => {
             // a new P row by an entitled author (the all-writer C at a valid date unless the case's author is used),
@@ -620,6 +652,19 @@ pub async fn run_case(w: &World, c: &Case, out: &mut Outcome, verbose: bool) -> 
                 .await?;
             r[0][0].int().unwrap_or(0) == 0 || t[0][0].int().unwrap_or(0) > 0
         }
+        Probe::AnyNodeGone(ids, dd) => {
+            let mut any = false;
+            for id in ids {
+                let r = victim.sql(&format!("SELECT count(*) FROM _node WHERE id = x'{}'", hex::encode_upper(id))).await?;
+                let t = victim
+                    .sql(&format!("SELECT count(*) FROM _node_deletion_log WHERE id = x'{}' AND deletion_date = {}", hex::encode_upper(id), dd))
+                    .await?;
+                if r[0][0].int().unwrap_or(0) == 0 || t[0][0].int().unwrap_or(0) > 0 {
+                    any = true;
+                }
+            }
+            any
+        }
         Probe::EdgeRemoved(s, l, dst) => {
             let r = victim
                 .sql(&format!("SELECT count(*) FROM _edge WHERE src = x'{}' AND label = '{}' AND dest = x'{}'", hex::encode_upper(s), l, hex::encode_upper(dst)))
@@ -664,7 +709,7 @@ pub async fn run_case(w: &World, c: &Case, out: &mut Outcome, verbose: bool) -> 
                     }
                 }
             }
-            Probe::NodeGone(..) | Probe::EdgeStored(..) | Probe::EdgeGone(..) | Probe::EdgeRemoved(..) => {}
+            Probe::NodeGone(..) | Probe::EdgeStored(..) | Probe::EdgeGone(..) | Probe::EdgeRemoved(..) | Probe::AnyNodeGone(..) => {}
         }
         for t in traces {
             out.violation(
